@@ -7,13 +7,16 @@ class C06(Spec):
     harness = "h_c06"
     required_theorems = ("C06.prefixUpper_spec", "C06.read_your_write", "C06.batch_in_order", "C06.iter_forward",
                          "C06.iter_reverse", "C06.seek_lands_forward", "C06.seek_lands_reverse", "C06.badger_iter_forward", "C06.badger_iter_reverse",
-                         "C06.badger_iter_eq_leveldb", "C06.badger_session_eq_leveldb")
+                         "C06.badger_iter_eq_leveldb", "C06.badger_session_eq_leveldb", "C06.batch_impl_refines",
+                         "C06.batch_write_error", "C06.iter_session_spec", "C06.seek_then_drain", "C06.badger_session_spec")
     level_text = ("Lean theorems about the ordered-map + iterator model (prefix upper bound, read-your-write, batch order, "
                   "iterator visits exactly the in-range keys in order, seek landing) for all inputs; the model is tied to "
                   "GoMemDB / GoLevelDB / GoBadgerDB by a line-by-line differential run (every Get, every iterator call: "
                   "return value, Valid, Key, Value) over generated sequences, and the property predicate is evaluated on "
                   "the implementation against an independent in-harness sorted map.")
-    level_note = ("goleveldb/memdb/badger internals are not modelled: the model is the ordered map the property names; "
+    level_note = ("goleveldb/memdb/badger internals are not modelled: the model is the ordered map the property names; the batch "
+                  "wrappers (writes list, nil-vs-empty values, Reset, ValueSize/ValueLen, last-error) are modelled (C06.Batch), refined to "
+                  "applyBatch and tied on all three backends; "
                   "Badger is driven without 0xff bytes and without empty stored keys; iterators are not interleaved with writes.")
     assumptions = (
         "goleveldb / memdb / badger storage engines behave as the ordered map of the model (this is what the differential run checks)",
